@@ -15,7 +15,7 @@ def parts_of(result, ml):
 
 def judge_parts(src, cfg, result, ml):
     viol = []
-    unkn = rawspace.CONFIGS[cfg][0].get('unkn')
+    unkn = rawspace.config_of(cfg)[0].get('unkn')
     for lang, plain, nums in parts_of(result, ml):
         if len(plain) != len(nums):
             viol.append(('length', {'lang': lang, 'len_plain': len(plain), 'len_map': len(nums)}))
@@ -64,7 +64,7 @@ class C01:
             return {'viol': [], 'out': 'skip', 'nt': False, 'tr': 1, 'cnt': {'skipped:' + skip: 1}}
         if o.kind != 'ok':
             return {'viol': [], 'out': o.kind, 'nt': False, 'tr': 1, 'cnt': {'no_result (C07 judges)': 1}}
-        ml = rawspace.CONFIGS[cfg][1]
+        ml = rawspace.config_of(cfg)[1]
         viol = [{'clause': 'len(plain)==len(charmap) and 1<=p<=len(source)', 'sig': 'C01:%s:%s' % (k, site(src, case)),
                  'detail': dict(d, source=src, config=cfg)} for k, d in judge_parts(src, cfg, o.result, ml)]
         nt = False
